@@ -426,7 +426,8 @@ def g_variable_values(c, m, vars_, mode="valid"):
 
 MUTATIONS = ["weaken-variable", "perturb-literal", "drop-required-arg", "retarget-condition",
              "rename-field", "leaf-subselection", "drop-subselection", "nullable-var-in-list",
-             "duplicate-key", "undeclared-variable", "unknown-argument", "weaken-inner-variable"]
+             "duplicate-key", "undeclared-variable", "unknown-argument", "weaken-inner-variable",
+             "fragment-cycle", "unknown-fragment", "duplicate-definition", "root-spread"]
 
 
 def _walk_fields(tree):
@@ -529,6 +530,28 @@ def mutate_document(c, m, doc):
         elif kind == "unknown-argument":
             s, _o = c.choose(fields)
             s["args"].append(["zz_unknown", {"k": "int", "v": "1"}])
+        elif kind == "fragment-cycle":
+            # a fragment that spreads itself, directly or through a second fragment; also spread at the
+            # root of an operation so that operation-level rules walk into the cycle
+            frs = [x for x in tree["defs"] if x["k"] == "frag"]
+            f1 = c.choose(frs)
+            f2 = c.choose(frs)
+            f1["sel"].append({"k": "spread", "n": f2["n"], "args": None, "dirs": []})
+            if f2 is not f1:
+                f2["sel"].append({"k": "spread", "n": f1["n"], "args": None, "dirs": []})
+            if c.chance(500):
+                c.choose(ops)["sel"].append({"k": "spread", "n": f1["n"], "args": None, "dirs": []})
+        elif kind == "unknown-fragment":
+            owner = c.choose([o["sel"] for o in ops] + [x["sel"] for x in tree["defs"] if x["k"] == "frag"])
+            owner.append({"k": "spread", "n": "Nope", "args": None, "dirs": []})
+        elif kind == "duplicate-definition":
+            x = c.choose([x for x in tree["defs"] if not x.get("short")])
+            tree["defs"].insert(c.pick(len(tree["defs"]) + 1), copy.deepcopy(x))
+        elif kind == "root-spread":
+            # any fragment spread at the root of any operation (type conditions may not fit)
+            frs = [x for x in tree["defs"] if x["k"] == "frag"]
+            c.choose(ops)["sel"].append({"k": "spread", "n": c.choose(frs)["n"], "args": None,
+                                         "dirs": []})
     except (IndexError, KeyError, TypeError):
         return None
     d["features"] = sorted(set(d["features"]) | {"mutant:" + kind})
